@@ -718,7 +718,7 @@ reg(P("C08", "calls", "c08",
            "interface / bytes / float32 / uint8 parameters, a namespaced instance method, exact / upper / mixed case and "
            "unknown names, nil arguments, a 10 kB string; raw Invoke and UseService proxies) x transports {mock, tcp, udp, "
            "net/http} in quick and all eight (incl. unix, fasthttp, websocket on net/http and fasthttp) in thorough x "
-           "worker pool on/off where the handler has one x simple mode x missing-method handler on/off",
+           "worker pool on/off where the handler has one x simple mode x missing-method handler on/off; plus seeded histories in which the method table changes while the service runs (publish / remove of functions under names that differ only in case, of the missing-method handler) interleaved with calls spelled in varying case",
       assumptions=["servers run inside the harness process on ephemeral ports", "calls are issued one after the other, so an "
                    "invocation is attributed to the call in progress"],
       sig_fn=lambda reset, event: {"kind": reset.get("kind"), "call": reset.get("callname"), "ev": (event or {}).get("ev"),
